@@ -8,7 +8,6 @@ import (
 	"fmt"
 	"regexp"
 	"slices"
-	"strings"
 
 	"github.com/roddhjav/apparmor.d/pkg/prebuild"
 )
@@ -59,7 +58,9 @@ func filter(only bool, opt *Option, profile string) (string, error) {
 	}
 
 	if opt.IsInline() {
-		profile = strings.ReplaceAll(profile, opt.Raw, "")
+		// Remove whole lines only: the line can be the beginning of a longer one
+		regRemoveLine := regexp.MustCompile(`(?m)^` + regexp.QuoteMeta(opt.Raw) + `$`)
+		profile = regRemoveLine.ReplaceAllString(profile, "")
 	} else {
 		// The directive line, alone on its line, up to the end of the paragraph
 		regRemoveParagraph := regexp.MustCompile(`(?ms)^` + regexp.QuoteMeta(opt.Raw) + `\n.*?\n\n`)
